@@ -271,7 +271,7 @@ def run(prop, seed, budget, ctx):
     # unions of alternatives of one JSON type, a class recursive through an aggregate (properties) field
     from apischema.json_schema import serialization_schema as sschema4
     nf4 = 6 * budget; rnd4 = random.Random(seed * 5 + 3)
-    f4 = ["from dataclasses import dataclass, field", "from typing import *", "from apischema import serialized, discriminator", "from apischema.metadata import properties", ""]
+    f4 = ["from dataclasses import dataclass, field", "from typing import *", "from apischema import serialized, discriminator", "from apischema.metadata import properties", "TG = TypeVar('TG')", ""]
     shapes = []
     for i in range(nf4):
         ret = rnd4.choice(["Other{i}", "List[Other{i}]", "Optional[Other{i}]"]).format(i=i); twice = rnd4.random() < 0.5
@@ -283,6 +283,10 @@ def run(prop, seed, budget, ctx):
         for j in range(k): f4 += ["@dataclass", f"class Pet{i}_{j}(Pet{i}):", f"    f{j}: int = 0", ""]
         f4 += ["@dataclass", f"class Owner{i}:", f"    pet: Pet{i}_0", ""]
         f4 += [f"NT{i} = NewType('NT{i}', {rnd4.choice(['int', 'str', 'bool'])})", ""]
+        # a generic class whose serialized method mentions its type variable, used specialised: the named argument is reached through the method
+        f4 += ["@dataclass", f"class GAuthor{i}:", "    name: str = ''", "", "@dataclass", f"class GRef{i}(Generic[TG]):", "    id: int = 0", "    @serialized",
+               "    def resolved(self) -> Optional[TG]: ...", "", "@dataclass", f"class GHold{i}:", f"    a: GRef{i}[GAuthor{i}]", f"    b: Optional[GAuthor{i}] = None", "",
+               "@dataclass", f"class GOnly{i}:", f"    a: GRef{i}[GAuthor{i}]", ""]
         # a class the library knows nothing about: as a union alternative it is dropped, and so is its name
         f4 += [f"class Token{i}:", "    pass", "", "@dataclass", f"class THolder{i}:", f"    x: Union[int, Token{i}]", f"    y: Optional[Union[Token{i}, Other{i}]] = None", f"    z: List[Union[Other{i}, Token{i}]] = field(default_factory=list)", ""]
         f4 += ["@dataclass", f"class PNode{i}:", "    v: int = 0", f"    kids: Dict[str, 'PNode{i}'] = field(default_factory=dict, metadata=properties)", ""]
@@ -304,6 +308,14 @@ def run(prop, seed, budget, ctx):
                 defs = closed_and_no_orphans(s, f"serialization_schema(SH{i})", info)
                 want = ([f"Other{i}"] if (all_refs or sh["twice"]) else []) + ([f"SH{i}"] if all_refs else [])
                 if sorted(defs) != sorted(want): failures.append(dict(info, kind="P", k_ok=None, why=["extracted-definitions-differ-from-the-rule"], got=sorted(defs), expected=sorted(want), schema=s))
+            for root, want in ((f"GHold{i}", [f"GAuthor{i}"] + ([f"GHold{i}"] if all_refs else [])), (f"GOnly{i}", ([f"GAuthor{i}", f"GOnly{i}"] if all_refs else []))):
+                info = {"family4": "serialized-method-of-a-specialised-generic", "root": root, "all_refs": all_refs}
+                evaluations += 1; distinct.add(("fam4", "generic-ser", i, root[:5], all_refs))
+                s = gen4(sschema4, ns5[root], info, all_refs=all_refs)
+                if s is not None:
+                    defs = closed_and_no_orphans(s, f"serialization_schema({root})", info)
+                    if sorted(defs) != sorted(want): failures.append(dict(info, kind="P", k_ok=None, why=["extracted-definitions-differ-from-the-rule"], got=sorted(defs), expected=sorted(want), schema=s))
+                    elif "GAuthor" not in json.dumps(s) and "name" not in json.dumps(s): failures.append(dict(info, kind="P", k_ok=None, why=["serialized-method-type-lost"], schema=s))
             info = {"family4": "recursive-through-a-serialized-method", "root": f"SNode{i}", "all_refs": all_refs}
             evaluations += 1
             s = gen4(sschema4, ns5[f"SNode{i}"], info, all_refs=all_refs)
